@@ -22,6 +22,7 @@ import (
 	"sort"
 	"strings"
 	"sync"
+	"sync/atomic"
 	"time"
 
 	"verif/internal/ev"
@@ -29,6 +30,10 @@ import (
 )
 
 func init() { register("C13", checkC13) }
+
+// c13Transient counts non-zero exits of missing-approve that did not show
+// again when the same directory was judged a second time.
+var c13Transient atomic.Int64
 
 const c13Dev = "router"
 
@@ -405,6 +410,17 @@ func (w *c13Worker) missingApprove(s *c13State) (listed bool, r run.Result) {
 	w.runs++
 	r = run.Exec(run.Cmd{Argv: []string{w.env.Prog("missing-approve")},
 		Dir: w.dir, Env: run.BaseEnv(w.home), Timeout: 30 * time.Second})
+	if r.Exit != 0 {
+		// The program is deterministic on a fixed directory: a non-zero
+		// exit that a second, unhurried run does not show again was the
+		// watchdog or the machine (fork failure under load), not the tool.
+		r2 := run.Exec(run.Cmd{Argv: []string{w.env.Prog("missing-approve")},
+			Dir: w.dir, Env: run.BaseEnv(w.home), Timeout: 120 * time.Second})
+		if r2.Exit == 0 {
+			c13Transient.Add(1)
+			r = r2
+		}
+	}
 	for _, l := range strings.Split(r.Stdout, "\n") {
 		if strings.TrimSpace(l) == c13Dev {
 			listed = true
@@ -710,6 +726,11 @@ func checkC13(tier, replay string) int {
 		}
 	}
 	rep.Count("missing_approve_runs", totalRuns)
+	if n := c13Transient.Load(); n > 0 {
+		for i := int64(0); i < n; i++ {
+			rep.Inconclusive("nonzero-exit-under-load-not-reproduced")
+		}
+	}
 	rep.Extra("depth", depth)
 	rep.Exhaustive = true
 	// Report violations. The class key is built from mechanism-visible
